@@ -16,6 +16,8 @@ var vpC11Patterns = []string{
 	"(^abc$)", "(?i)(^ab$)", "^a$", "(?s)^abc$", "^abc$|^abd$",
 	// mixed case flags with upper-case case-sensitive literals
 	"AB(?i:cd)", "(?i:ab)CD", "(?i)ab(?-i:CD)", "(?i:a)BC|xyz",
+	// text anchors with something other than the literal next to them
+	`\A\dab`, `\Ax.*ab`, `ab\d\z`, `\A(?:ab)?cd`, `\A[ab]cd\z`, `(?i)\A.ab`, `\Aab.*cd\d\z`,
 }
 
 type vpCapture struct {
@@ -85,7 +87,7 @@ func VpC11Prefilter() {
 }
 
 // VpC11Generated: patterns enumerated from a small grammar instead of a hand-written list:
-//   [flags] [^] atom atom[quant] atom [| alt] [$]
+//   [flags] [^|\A] atom atom[quant] atom [| alt] [$|\z]
 // with atoms from {a, B, (?i:b), [ab], ., \d, b}, quantifiers {none, ?, *, +}, alternatives
 // {none, "|ab", "|Ab", "|"}, flags {none, (?i), (?s), (?m)}; symbolic ASCII input.  The match
 // result with the prefilter on must equal the one with it off.
@@ -98,14 +100,20 @@ func VpC11Generated() {
 	q := []string{"", "?", "*", "+"}[vp.Choice("quant", 4)]
 	alt := []string{"", "|ab", "|Ab", "|"}[vp.Choice("alt", vp.Param("ALTS", 4))]
 	fl := []string{"", "(?i)", "(?s)", "(?m)"}[vp.Choice("flags", vp.Param("FLAGS", 4))]
-	anchor := vp.Choice("anchors", 4)
+	anchor := vp.Choice("anchors", 7)
 	pat := a1 + a2 + q + a3
-	if anchor&1 != 0 {
+	switch anchor {
+	case 1, 3:
 		pat = "^" + pat
+	case 4, 6:
+		pat = `\A` + pat
 	}
 	pat += alt
-	if anchor&2 != 0 {
+	switch anchor {
+	case 2, 3:
 		pat += "$"
+	case 5, 6:
+		pat += `\z`
 	}
 	pat = fl + pat
 	pair := vp.Setup("c11g:"+pat, func() any {
